@@ -218,7 +218,7 @@ func (c *Ctx) MethodIn(pkg, typ, name string) *ssa.Function {
 		ms := c.Prog.MethodSets.MethodSet(ty)
 		for i := 0; i < ms.Len(); i++ {
 			if ms.At(i).Obj().Name() == name {
-				if f := c.Prog.MethodValue(ms.At(i)); f != nil && f.Synthetic == "" {
+				if f := c.Prog.MethodValue(ms.At(i)); f != nil && !strings.Contains(f.Synthetic, "wrapper") {
 					return f
 				}
 			}
